@@ -25,7 +25,7 @@ def unpack(x, r, c, b):
     return [[(x >> (b * ((r - 1 - i) * c + (c - 1 - j)))) & ((1 << b) - 1) for j in range(c)] for i in range(r)]
 
 
-def run(ctx, name, shapes, build, spec, exact_ops=False, scalar_ins=()):
+def run(ctx, name, shapes, build, spec, exact_ops=False, scalar_ins=(), note=''):
     """shapes: [(rows, cols, bits)]; build(*mats) -> Matrix or wire; spec(*int matrices) -> int matrix or int"""
     rng = ctx.rng
     pyrtl.reset_working_block()
@@ -33,7 +33,7 @@ def run(ctx, name, shapes, build, spec, exact_ops=False, scalar_ins=()):
     for k, (r, c, b) in enumerate(shapes):
         i = Input(r * c * b, 'i%d' % k)
         mats.append(M.Matrix(r, c, b, value=i))
-    key = '%s%s' % (name, shapes)
+    key = '%s%s%s' % (name, shapes, note)
     try:
         res = build(*mats)
     except Exception as e:  # noqa
@@ -84,6 +84,151 @@ def run(ctx, name, shapes, build, spec, exact_ops=False, scalar_ins=()):
     ctx.distinct.add(key)
     ctx.count('operation', name)
     ctx.sample({'op': name, 'shapes': shapes, 'cases': len(combos), 'result_bits': bb}, limit=8)
+
+
+def history(ctx, k):
+    """A random sequence of mutating operations on one Matrix object (in-place arithmetic, element and
+    width assignment) interleaved with observations (to_wirevector, copy, element reads); every
+    observation must equal the integer-matrix history evaluated on the same inputs."""
+    import operator
+    rng = ctx.rng
+    r, c = rng.choice([(1, 1), (1, 2), (2, 1), (2, 2), (2, 3), (3, 2), (3, 3)])
+    ba, bb_ = rng.randint(2, 8), rng.randint(1, 4)
+    pyrtl.reset_working_block()
+    ia, ib, iq, isc = Input(r * c * ba, 'ia'), Input(r * c * bb_, 'ib'), Input(c * c * 2, 'iq'), Input(8, 'isc')
+    a = M.Matrix(r, c, ba, value=ia)
+    b = M.Matrix(r, c, bb_, value=ib)
+    q = M.Matrix(c, c, 2, value=iq)
+    ops = []            # (name, fn(int matrix, env) -> int matrix, bits after, exact?)
+    probes = []         # (output name, index into ops (number of ops applied), kind, rows, cols, bits)
+    trunc = lambda m_, n: [[e % (1 << n) for e in row] for row in m_]   # noqa
+
+    def probe(kind, obj=None):
+        nm = 'p%d' % len(probes)
+        obj = a if obj is None else obj
+        try:
+            if kind == 'copy':
+                w = obj.copy().to_wirevector()
+            elif kind == 'elem':
+                w = pyrtl.as_wires(obj[r - 1, 0], bitwidth=obj.bits)
+            elif kind == 'transpose':
+                w = obj.transpose().to_wirevector()
+            else:      # 'wire', and 'self': the object an in-place operator was applied to
+                w = obj.to_wirevector()
+        except Exception as e:  # noqa
+            return 'observation %s raised %s: %s' % (kind, type(e).__name__, str(e)[:120])
+        o = Output(len(w), nm)
+        o <<= w
+        probes.append((nm, len(ops), kind, obj.rows, obj.columns, obj.bits))
+        return None
+
+    seq = []
+    err = None
+    err = probe(rng.choice(['wire', 'copy', 'elem', 'transpose']))      # an observation before any mutation
+    nops = rng.randint(1, 4)
+    for _ in range(nops):
+        if err:
+            break
+        choices = ['iadd', 'isub', 'imul', 'imatmul', 'setitem', 'bits-narrow', 'bits-widen', 'put']
+        if r == c:
+            choices.append('ipow')
+        op = rng.choice(choices)
+        if seq and seq[-1] == 'bits-narrow' and rng.random() < 0.6:
+            op = 'bits-widen'          # narrowing must really drop the bits: widening again may not bring them back
+        prev = a
+        try:
+            if op == 'iadd':
+                a = operator.iadd(a, b)
+                fn, exact = (lambda m_, e: [[x + y for x, y in zip(ra, rb)] for ra, rb in zip(m_, e['b'])]), True
+            elif op == 'isub':
+                a = operator.isub(a, b)
+                fn, exact = (lambda m_, e: [[max(x - y, 0) for x, y in zip(ra, rb)] for ra, rb in zip(m_, e['b'])]), False
+            elif op == 'imul':
+                a = operator.imul(a, b)
+                fn, exact = (lambda m_, e: [[x * y for x, y in zip(ra, rb)] for ra, rb in zip(m_, e['b'])]), True
+            elif op == 'imatmul':
+                a = operator.imatmul(a, q)
+                fn, exact = (lambda m_, e: mm(m_, e['q'])), True
+            elif op == 'ipow':
+                a = operator.ipow(a, 2)
+                fn, exact = (lambda m_, e: mm(m_, m_)), True
+            elif op == 'setitem':
+                i, j = rng.randrange(r), rng.randrange(c)
+                a[i, j] = isc
+                fn = (lambda m_, e, i=i, j=j: [[(e['s'] if (x, y) == (i, j) else m_[x][y]) for y in range(len(m_[0]))]
+                                               for x in range(len(m_))])
+                exact = False
+            elif op == 'put':
+                a.put([0, -1], [isc, isc])
+                fn = (lambda m_, e: (lambda fl: [fl[x * len(m_[0]):(x + 1) * len(m_[0])] for x in range(len(m_))])(
+                    [(e['s'] if k_ in (0, len(m_) * len(m_[0]) - 1) else v) for k_, v in enumerate([v for row in m_ for v in row])]))
+                exact = False
+            elif op == 'bits-narrow':
+                a.bits = rng.randint(1, max(1, a.bits - 1))
+                fn, exact = (lambda m_, e: m_), False
+            else:
+                a.bits = min(a.bits + rng.randint(1, 3), a.max_bits or 64)     # widths beyond max_bits are outside the documented use
+                fn, exact = (lambda m_, e: m_), False
+        except Exception as e:  # noqa
+            err = '%s raised %s: %s' % (op, type(e).__name__, str(e)[:120])
+            seq.append(op)
+            break
+        seq.append(op)
+        if (a.rows, a.columns) != (r, c):
+            err = '%s changed the shape to %dx%d' % (op, a.rows, a.columns)
+            break
+        ops.append((op, fn, a.bits, exact))
+        if prev is not a:
+            if prev.bits != a.bits:
+                err = 'after in-place %s the object itself has bits=%d, the returned matrix bits=%d' % (op, prev.bits, a.bits)
+                break
+            if rng.random() < 0.5:
+                err = probe('self', prev)
+        for kind in rng.sample(['wire', 'copy', 'elem', 'transpose'], rng.randint(0, 2)):
+            err = err or probe(kind)
+    if not err:
+        err = probe('wire')
+    key = 'history%s' % (seq,)
+    replay = {'kind': 'matrix-history', 'shape': [r, c], 'bits': [ba, bb_], 'ops': seq}
+    if err:
+        ctx.violation('matrix-history-raises:' + (seq[-1] if seq else 'observe'), 'Matrix %dx%d (bits %d) history %s: %s' % (r, c, ba, seq, err), replay)
+        return
+    sim = pyrtl.FastSimulation()
+    for t in range(ctx.n(12, 40)):
+        av = [[rng.choice([0, 1, (1 << ba) - 1, rng.getrandbits(ba)]) for _ in range(c)] for _ in range(r)]
+        bv = [[rng.choice([0, 1, (1 << bb_) - 1, rng.getrandbits(bb_)]) for _ in range(c)] for _ in range(r)]
+        qv = [[rng.getrandbits(2) for _ in range(c)] for _ in range(c)]
+        sv = rng.getrandbits(8)
+        sim.step({'ia': pack(av, ba), 'ib': pack(bv, bb_), 'iq': pack(qv, 2), 'isc': sv})
+        states = [av]
+        cur = av
+        for (op, fn, bits_after, exact) in ops:
+            nxt = fn(cur, {'b': bv, 'q': qv, 's': sv})
+            if exact and any(e >= (1 << bits_after) for row in nxt for e in row):
+                ctx.violation('matrix-width:' + op, 'history %s on %r: width %d after %s cannot hold the exact result %r' % (
+                    seq, av, bits_after, op, nxt), dict(replay, a=av, b=bv, q=qv, s=sv))
+                return
+            cur = trunc(nxt, bits_after)
+            states.append(cur)
+        ctx.evaluations += 1
+        for (nm, idx, kind, pr, pc, pb) in probes:
+            want = states[idx]
+            if kind == 'elem':
+                got, exp = sim.inspect(nm), want[r - 1][0] % (1 << pb)
+            elif kind == 'transpose':
+                got, exp = unpack(sim.inspect(nm), pc, pr, pb), trunc([list(x) for x in zip(*want)], pb)
+            else:
+                got, exp = unpack(sim.inspect(nm), pr, pc, pb), trunc(want, pb)
+            if got != exp:
+                ctx.violation('matrix-history:' + (seq[idx - 1] if idx else 'observe'),
+                              'Matrix history %s on a=%r b=%r: observation %s after %d operation(s) gives %r, the integer-matrix '
+                              'history gives %r' % (seq, av, bv, kind, idx, got, exp),
+                              dict(replay, a=av, b=bv, q=qv, s=sv, observation=kind, after=idx, got=got, want=exp))
+                return
+    ctx.distinct.add(key)
+    ctx.count('operation', 'history')
+    for op in seq:
+        ctx.count('history-op', op)
 
 
 def mm(a, b):
@@ -175,6 +320,35 @@ def main(ctx):
             run(ctx, 'put', [(r, c, ba), (1, 1, ba)], b_put,
                 lambda a, b, r=r, c=c: (lambda fl: [fl[i * c:(i + 1) * c] for i in range(r)])(
                     [(b[0][0] if k in (0, r * c - 1) else e) for k, e in enumerate([e for row in a for e in row])]))
+            # put() with every mode: indices on and beyond both ends of the flattened matrix (count, -count, -count-1 ...),
+            # fewer values than indices (the last value repeats), later indices overriding earlier ones
+            cnt = r * c
+            for mode in ('wrap', 'clip', 'raise'):
+                pool = [0, cnt - 1, cnt, cnt + 1, -1, -cnt, -cnt - 1, 2 * cnt, 2 * cnt + 1, -2 * cnt, rng.randint(-3 * cnt, 3 * cnt)]
+                inds = [rng.choice(pool) for _ in range(rng.randint(1, 3))]
+                if mode == 'raise':
+                    inds = [i for i in inds if -cnt <= i < cnt] or [0]
+                nv = rng.randint(1, len(inds))
+
+                def put_spec(a, b, inds=inds, nv=nv, mode=mode, cnt=cnt, c=c):
+                    fl = [e for row in a for e in row]
+                    for k_, ix in enumerate(inds):
+                        if ix < 0:
+                            ix = cnt + ix
+                        if ix < 0 or ix >= cnt:
+                            ix = ix % cnt if mode == 'wrap' else (0 if ix < 0 else cnt - 1)
+                        fl[ix] = b[0][min(k_, nv - 1)]
+                    return [fl[i * c:(i + 1) * c] for i in range(len(a))]
+
+                def b_putm(a, b, inds=inds, nv=nv, mode=mode):
+                    a2 = a.copy()
+                    a2.put(list(inds), [b[0, i] for i in range(nv)], mode=mode)
+                    return a2
+                run(ctx, 'put-' + mode, [(r, c, ba), (1, nv, ba)], b_putm, put_spec, note=' indices %r, %d value(s)' % (inds, nv))
+        if len(ctx.violations) >= 6:
+            break
+    for k in ctx.loop(ctx.n(60, 600)):
+        history(ctx, k)
         if len(ctx.violations) >= 6:
             break
     # helper functions on plain integers
@@ -190,4 +364,5 @@ def main(ctx):
                '%d operation instances' % len(ctx.distinct))
     return conclude(ctx, rule='every Matrix operation x shapes up to 4x4 x mixed element widths 1..8 x element values '
                     '(exhaustive when all operands total <= 8 bits, else 0/1/max/random); result bits attribute and shape compared '
-                    'as well as values; distinct = (operation, shapes)')
+                    'as well as values; plus random histories of in-place operations, element/width assignment and observations on one '
+                    'Matrix object; distinct = (operation, shapes) or the history')
